@@ -37,7 +37,7 @@ from mc.harness import rotate
 PID = "C03"
 HERE = os.path.dirname(os.path.abspath(__file__))
 WORKER = os.path.join(HERE, "c03_worker.py")
-WORKER_TIMEOUT_S = 900
+WORKER_TIMEOUT_S = 2400
 BASE_HASH = 0
 DIMS = ("rerun", "clock", "hashseed", "prior")
 
@@ -163,34 +163,48 @@ def other_equal(a, b, dim):
 
 def analyse(table):
     """table: {(model, seed): {env(hashseed, prior, clock): {rep: row}}}
-    Returns list of (model, dim, seed, envA, repA, envB, repB)."""
+    Returns list of (model, dim, seed, envA, repA, envB, repB).
+
+    One dimension at a time with every other answer held fixed.  Once a dimension is found to
+    change the digest it is pinned to its default answer, so that it cannot be blamed on the
+    dimensions examined after it (a wall-clock dependent model is not repeatable under the warped
+    clock, which is not a hash-seed dependence)."""
+    IDX = {"hashseed": 0, "prior": 1, "clock": 2}
     found = []
     for (model, seed), by_env in sorted(table.items()):
         flagged = set()
-        # 1. same process, back to back
-        for env, reps in sorted(by_env.items()):
-            if 0 in reps and 1 in reps and sig(reps[0]) != sig(reps[1]):
+        live = {env: reps for env, reps in by_env.items() if 0 in reps}
+
+        def pin(dim, default):
+            nonlocal live
+            pinned = {e: r for e, r in live.items() if e[IDX[dim]] == default}
+            live = pinned or live
+
+        def cross(dim):
+            for a, b in itertools.combinations(sorted(live), 2):
+                if other_equal(a, b, dim) and sig(live[a][0]) != sig(live[b][0]):
+                    return a, b
+            return None
+
+        hit = cross("clock")
+        if hit:
+            found.append((model, "clock", seed, hit[0], 0, hit[1], 0))
+            flagged.add("clock")
+            pin("clock", "real")
+        # same interpreter, back to back
+        for env, reps in sorted(live.items()):
+            if 1 in reps and sig(reps[0]) != sig(reps[1]):
                 found.append((model, "rerun", seed, env, 0, env, 1))
                 flagged.add("rerun")
                 break
-        first = {env: reps[0] for env, reps in by_env.items() if 0 in reps}
-        live = dict(first)
-        # 2..4 one dimension at a time, everything else held fixed; a flagged dimension is then
-        # pinned to its default answer so it cannot be blamed on the next one
-        for dim, default in (("clock", "real"), ("hashseed", BASE_HASH), ("prior", "fresh")):
-            hit = None
-            envs = sorted(live)
-            for a, b in itertools.combinations(envs, 2):
-                if other_equal(a, b, dim) and sig(live[a]) != sig(live[b]):
-                    hit = (a, b)
-                    break
+        for dim, default in (("hashseed", BASE_HASH), ("prior", "fresh")):
+            hit = cross(dim)
             if hit:
                 found.append((model, dim, seed, hit[0], 0, hit[1], 0))
                 flagged.add(dim)
-                idx = {"hashseed": 0, "prior": 1, "clock": 2}[dim]
-                pinned = {e: r for e, r in live.items() if e[idx] == default}
-                live = pinned or live
+                pin(dim, default)
         if not flagged and len({sig(r) for reps in by_env.values() for r in reps.values()}) > 1:
+            first = {env: reps[0] for env, reps in by_env.items() if 0 in reps}
             envs = sorted(first)
             a = envs[0]
             b = next(e for e in envs if sig(first[e]) != sig(first[a]))
@@ -256,12 +270,15 @@ def main(tier, seed, only=None):
             names, partial = sel, True
     run = Run(PID, tier, seed, "exploration",
               rule=("every catalogue model x seed is executed on the real library under EVERY environment answer of "
-                    "the menu hashseed x prior-activity x wall-clock (each answer = one fresh interpreter running "
-                    "the whole catalogue, every run twice back to back; thorough: additionally each model alone in "
-                    "a fresh interpreter); states = distinct (model, seed, run digest); transitions = event "
-                    "deliveries executed; non-trivial = distinct (model, seed, environment, rep) executions under an "
-                    "environment answer that differs from the default (hashseed 0, no prior activity, real clock, "
-                    "first run) in at least one dimension"),
+                    "the menu hashseed x prior-activity x wall-clock: each (hashseed, clock, {front|busy}) is one "
+                    "newly started interpreter running the whole catalogue (front: every run twice back to back; "
+                    "under the real clock additionally every model in a forked child of the still pristine "
+                    "interpreter; thorough: also each model alone in a newly exec'ed interpreter); "
+                    "states = distinct (model, seed, run digest); transitions = event deliveries executed; "
+                    "non-trivial = distinct (model, seed, environment, run#) executions under an environment answer "
+                    "that differs from the default (hashseed 0, nothing run before, real clock, first run) in at "
+                    "least one dimension; drivers.envmatrix lists per model how often a run queried the module RNG, "
+                    "numpy RNG, uuid4, the wall clock and builtin hash() of a str"),
               assumptions=["the delivery sequence is observed through sim.control.on_event (public API; C04 is the "
                            "property that the observed loop equals the unobserved one)",
                            "statistics = every entity's public stats snapshot / public counters + the model's "
@@ -282,7 +299,7 @@ def main(tier, seed, only=None):
         priors.append("exec-fresh (model alone in a newly exec'ed interpreter)")
     d = run.driver("envmatrix", {"models": len(names), "model_seeds": model_seeds(seed),
                                  "hashseeds": hash_menu(tier, seed), "prior": priors, "clock": ["real", "warp"],
-                                 "reps_per_process": 2, "interpreters": len(jobs)})
+                                 "runs_back_to_back": "2 (quick: 1 in the 'busy' interpreters)", "interpreters": len(jobs)})
     table = {}
     digests = set()
     coupling = {}
